@@ -326,9 +326,49 @@ impl<K: CacheKey + 'static> DiskCache<K> {
         self.sync_handle = Some(handle);
     }
 
+    /// Encode one '/'-separated component of a cache key as a plain file name.
+    ///
+    /// Components that would change the meaning of a path (empty, `.`, `..`) and the
+    /// characters `%` and NUL are percent-encoded. The encoding is injective, and keys made
+    /// of ordinary names keep the file names they always had.
+    fn encode_key_component(component: &str) -> String {
+        let encoded = match component {
+            "" => "%2F".to_string(),
+            "." => "%2E".to_string(),
+            ".." => "%2E%2E".to_string(),
+            other => other.replace('%', "%25").replace('\0', "%00"),
+        };
+
+        // Whatever the platform still does not read as one plain name (drive prefixes or
+        // backslash separators on Windows) is encoded byte by byte.
+        let mut parts = Path::new(&encoded).components();
+        if matches!(
+            (parts.next(), parts.next()),
+            (Some(std::path::Component::Normal(_)), None)
+        ) {
+            encoded
+        } else {
+            component.bytes().map(|b| format!("%{b:02X}")).collect()
+        }
+    }
+
+    /// Map a cache key to a relative path that cannot leave the cache directory.
+    ///
+    /// Keys may use `/` to group entries into directories (for example
+    /// `cdn/tpr/wow/data/ab/cd/<hash>`); every component is passed through
+    /// [`Self::encode_key_component`], so neither `..`, nor an absolute key, nor an empty key
+    /// can address anything outside (or the root of) the cache directory.
+    fn key_to_relative_path(key_str: &str) -> PathBuf {
+        key_str
+            .split('/')
+            .map(Self::encode_key_component)
+            .collect::<PathBuf>()
+    }
+
     /// Generate file path for a cache key
     fn get_file_path(&self, key: &K) -> PathBuf {
         let key_str = key.as_cache_key();
+        let relative = Self::key_to_relative_path(key_str);
 
         if self.config.use_subdirectories {
             // Create hierarchical directory structure using key hash
@@ -348,10 +388,10 @@ impl<K: CacheKey + 'static> DiskCache<K> {
                 eprintln!("Failed to create cache directory {}: {e}", path.display());
             }
 
-            path.push(key_str);
+            path.push(relative);
             path
         } else {
-            self.config.cache_dir.join(key_str)
+            self.config.cache_dir.join(relative)
         }
     }
 
